@@ -449,6 +449,76 @@ Qed.
 
 End RoundBandLU.
 
+(* ================================================================ the factorisation without exchanges *)
+Section RoundBandNoswap.
+Variable u : R.
+Hypothesis u_range : 0 <= u < 1.
+Variables fadd fsub fmul fdiv : R -> R -> R.
+Hypothesis fsub_ok : forall x y, exists d, Rabs d <= u /\ fsub x y = (x - y) * (1 + d).
+Hypothesis fmul_ok : forall x y, exists d, Rabs d <= u /\ fmul x y = x * y * (1 + d).
+Hypothesis fdiv_ok : forall x y, y <> 0 -> exists d, Rabs d <= u /\ fdiv x y = x / y * (1 + d).
+
+Notation AR := (ARm fadd fsub fmul fdiv).
+Notation gam := (gam u).
+Notation Uc := (Uc fadd fsub fmul fdiv).
+
+(* the factorisation when the pivot search never leaves the diagonal (index[k] = k+1): the band LU without pivoting,
+   L_(r,j) = al[j][r-j-1] for r - m1 <= j < r, and the constant depends on the bandwidth only: gam (min r m1) <= gam m1 *)
+Theorem band_lu_noswap_backward_error_lemma (n mm m1 : nat) (au0 al0 : matrix AR) (index0 : list nat) (d0 : R)
+        (au al : matrix AR) (index : list nat) (d : R) (lf : nat) :
+  cols au0 = mm -> cols al0 = m1 -> (1 <= mm)%nat -> (m1 <= n)%nat -> INR m1 * u < 1 ->
+  for_ 0 n (dec_step (A := AR) false n mm) (au0, al0, index0, d0, m1) = Ok (au, al, index, d, lf) ->
+  (forall k, (k < n)%nat -> mat_at (A := AR) au mm k 0 <> 0) ->
+  (forall k, (k < n)%nat -> nth k index 0%nat = (k + 1)%nat) ->
+  forall r, (r < n)%nat ->
+    (forall s, (s < mm)%nat ->
+       exists (dd : R) (dL : nat -> R),
+         Rabs dd <= gam (Nat.min r m1) /\
+         (forall t, (t < Nat.min r m1)%nat ->
+            Rabs (dL t) <= gam (Nat.min r m1)
+                           * Rabs (mat_at (A := AR) al m1 (r - Nat.min r m1 + t) (r - (r - Nat.min r m1 + t) - 1))) /\
+         (1 + dd) * mat_at (A := AR) au mm r s
+         + Rsum (Nat.min r m1)
+             (fun t => (mat_at (A := AR) al m1 (r - Nat.min r m1 + t) (r - (r - Nat.min r m1 + t) - 1) + dL t)
+                       * Uc au mm (r - Nat.min r m1 + t) (r + s))
+         = D0 (A := AR) mm m1 au0 r (r + s)) /\
+    (forall t, (t < Nat.min r m1)%nat ->
+       exists dL : nat -> R,
+         (forall t', (t' <= t)%nat ->
+            Rabs (dL t') <= gam (t + 1)
+                            * Rabs (mat_at (A := AR) al m1 (r - Nat.min r m1 + t') (r - (r - Nat.min r m1 + t') - 1))) /\
+         Rsum (S t)
+           (fun t' => (mat_at (A := AR) al m1 (r - Nat.min r m1 + t') (r - (r - Nat.min r m1 + t') - 1) + dL t')
+                      * Uc au mm (r - Nat.min r m1 + t') (r - Nat.min r m1 + t))
+         = D0 (A := AR) mm m1 au0 r (r - Nat.min r m1 + t)).
+Proof using u_range fsub_ok fmul_ok fdiv_ok.
+  intros Hc Hcl Hmm Hm1 Hu E Hpiv Hix r Hr.
+  pose proof (band_lu_backward_error_lemma u u_range fadd fsub fmul fdiv fsub_ok fmul_ok fdiv_ok
+                n mm m1 au0 al0 index0 d0 au al index d lf Hc Hcl Hmm Hm1 E Hpiv r Hr) as HLU.
+  cbn zeta in HLU. rewrite (fperm_noswap index n n r Hix (le_n n)) in HLU.
+  rewrite (fhist_noswap (A := AR) n m1 al index r Hix Hr) in HLU.
+  set (c := Nat.min r m1) in *.
+  set (h := map (fun j => (mat_at (A := AR) al m1 j (r - j - 1), j)) (seq (r - c) c)) in *.
+  assert (Lh : @length (R * nat) h = c) by (unfold h; now rewrite map_length, seq_length).
+  assert (Nh : forall t, (t < c)%nat -> nth t h (0, 0%nat)
+               = (mat_at (A := AR) al m1 (r - c + t) (r - (r - c + t) - 1), (r - c + t)%nat)).
+  { intros t Ht. unfold h. now rewrite nth_map_seq_gen by exact Ht. }
+  assert (Huc : INR (@length (R * nat) h) * u < 1).
+  { rewrite Lh. assert (Hcm : (c <= m1)%nat) by (unfold c; lia). pose proof (le_INR _ _ Hcm) as Hcm'.
+    destruct u_range as [U0 _]. assert (0 <= (INR m1 - INR c) * u) by (apply Rmult_le_pos; lra). lra. }
+  destruct (HLU Huc) as (HU & HL). rewrite Lh in HU, HL. change (Arith.T AR) with R in *. split.
+  - intros s Hs. destruct (HU s Hs) as (dd & dL & H1 & H2 & H3). exists dd, dL.
+    split; [exact H1|]. split.
+    + intros t Ht. specialize (H2 t Ht). rewrite Nh in H2 by exact Ht. exact H2.
+    + rewrite <- H3. f_equal. apply Rsum_ext. intros t Ht. now rewrite Nh by exact Ht.
+  - intros t Ht. destruct (HL t Ht) as (dL & H1 & H2). exists dL. split.
+    + intros t' Ht'. specialize (H1 t' Ht'). rewrite Nh in H1 by lia. exact H1.
+    + rewrite (Nh t Ht) in H2. cbn [snd] in H2. rewrite <- H2. apply Rsum_ext. intros t' Ht'.
+      now rewrite Nh by lia.
+Qed.
+
+End RoundBandNoswap.
+
 (* ================================================================ band_solve as a whole: the three statements for the
    factors the solver computed itself *)
 Section RoundBandSolve.
